@@ -207,6 +207,7 @@ def run_chunk(chunk, tier):
     elif kind == "B":
         _, N, a, j, J = chunk
         seen = set()
+        first = []
         for st in F.states(N, a, j, J):
             s = F.string_of(st)
             if s in seen:
@@ -224,6 +225,16 @@ def run_chunk(chunk, tier):
             if res.states % 997 == 1:
                 res.sample(dict(layer="B", s=s, cost=c, composition={str(k): v for k, v in ref.items()}), limit=2)
             _count_symbols(res, st)
+            if len(first) < 200:
+                first.append((s, ref, c))
+        # history independence of the lazily built, memoised parser: the first cases of the chunk, parsed again after
+        # everything else, must give the same observation
+        for s, ref, c in first:
+            again, _ = _observe(s, both=False)
+            res.evaluations += 1
+            if not _same(again, ref):
+                res.violation("C01|B|formula_to_composition|history-dependent", "formula_to_composition(%r) = %r when parsed again after %d other formulas (written: %r)" % (s, again, res.states, ref),
+                              dict(layer="B", s=s, cost=c, ref={str(k): v for k, v in ref.items()}), again, ref)
         res.extra["max_depth"] = max([0] + [F.depth(st[0]) for st in itertools.islice(F.states(N, a, j, J), 0, 200000, 101)])
     elif kind == "C":
         _, NC, a, j, J = chunk
